@@ -12,8 +12,10 @@ Next == UNCHANGED tid
 
 RunClause(c, z, r) ==
   IF r.out # "ok" THEN "Raised"
-  ELSE IF DOMAIN r.res # Nts(c.ag) THEN "EveryNonterminalHasAValue"
-  ELSE IF \E X \in Nts(c.ag) : ~TensorEq(c.ag, X, r.res[X], z[r.sr][X]) THEN "SumProductEqualsDefinition"
+  \* r.partial: the run reports a subset of the nonterminals (must include the start symbol)
+  ELSE IF ~r.partial /\ DOMAIN r.res # Nts(c.ag) THEN "EveryNonterminalHasAValue"
+  ELSE IF r.partial /\ ~(c.ag.start \in DOMAIN r.res /\ DOMAIN r.res \subseteq Nts(c.ag)) THEN "StartSymbolHasAValue"
+  ELSE IF \E X \in DOMAIN r.res : ~TensorEq(c.ag, X, r.res[X], z[r.sr][X]) THEN "SumProductEqualsDefinition"
   ELSE "ok"
 
 Verdict(c) ==
